@@ -363,6 +363,9 @@ def sh_repr(x):
 def sh_mul(a, b):
     """a * b (loader normalisation N4): sequence repetition with a symbolic count stays symbolic"""
     for s, k in ((a, b), (b, a)):
+        if (getattr(s, '__is_symstr__', False) or getattr(s, '__is_symbytes__', False)) and isinstance(k, builtins.int):
+            return s.__mul__(k)
+    for s, k in ((a, b), (b, a)):
         if isinstance(k, SInt) and isinstance(s, (builtins.str, builtins.bytes)):
             if builtins.len(s) == 0:
                 return s
